@@ -24,7 +24,7 @@ Lemma s_insert_lawful k w :
                                      | None => elems (self w) ++ [(k, tt)]
                                      end) /\
                   (find_idx ck (ck k) (elems (self w)) = None -> len (self w) < cap (self w)))
-     (fun w' => self w' = self w /\ logged w w' (ev_drops (idK E k ++ idV E tt)) /\
+     (fun w' => self w' = self w /\ logged w w' (ev_drops (idV E tt ++ idK E k)) /\
                 find_idx ck (ck k) (elems (self w)) = None /\ len (self w) = cap (self w)) w.
 Proof.
   intros Hw. unfold s_insert. apply wp_bind.
@@ -53,7 +53,7 @@ Lemma s_replace_lawful k w :
                                      | None => elems (self w) ++ [(k, tt)]
                                      end) /\
                   (find_idx ck (ck k) (elems (self w)) = None -> len (self w) < cap (self w)))
-     (fun w' => self w' = self w /\ logged w w' (ev_drops (idK E k ++ idV E tt)) /\
+     (fun w' => self w' = self w /\ logged w w' (ev_drops (idV E tt ++ idK E k)) /\
                 find_idx ck (ck k) (elems (self w)) = None /\ len (self w) = cap (self w)) w.
 Proof.
   intros Hw. unfold s_replace. apply wp_bind.
